@@ -66,7 +66,7 @@ def run(facts, rep, tier, ctx):
             idioms[r[0]] = idioms.get(r[0], 0) + 1
             rep.ob("R13.2", D.owner_id(b), s.desc, True, "%s: %s" % r, s.line)
     rep.note("discharge idiom usage: %s" % dict(sorted(idioms.items())))
-    rep.floor("Assert terminators inventoried", n_assert, 20)
+    rep.floor("Assert terminators inventoried", n_assert, 16)  # 20 today; a vacuity floor: tidying arithmetic away removes asserts
     rep.floor("panicking-callee call sites inventoried", n_call, 60)
     # lock regions for D9 must exist (MemoryFS has 14 acquisitions)
     nacq = 0
